@@ -17,6 +17,7 @@ class G:
         self.p_leaf = p_leaf
         self.used = []
         self.top = True
+        self.p_empty = 0.05       # zero-length finite leaves
         self.inexact = False      # True: non-dyadic floats (0.1, 0.7 ...) — only for expressions of continuous operators
 
     # ---- scalars --------------------------------------------------------------------------------
@@ -58,6 +59,11 @@ class G:
                 return self.lit(**kw)
             n = r.randint(1, 6)
             rep = r.choice([1, 1, 2, 3]) if (finite or r.random() < 0.7) else -1
+            if finite and r.random() < self.p_empty:
+                # a zero-length input (the documented domain includes length 0): no items, or no repeats
+                if r.random() < 0.5:
+                    return node("seq", [1, 0, 0], [], [])
+                rep = 0
             items = []
             for _ in range(n):
                 if depth > 0 and r.random() < 0.15:
@@ -75,6 +81,7 @@ class G:
         sub.used = self.used
         sub.top = False
         sub.inexact = self.inexact
+        sub.p_empty = self.p_empty
         return REG[c].gen(sub)
 
     def param(self, value_gen, p_pattern=0.3):
@@ -153,7 +160,9 @@ register("abs", lambda n, v, kids, extra: abs(kids[0]) if isinstance(kids[0], is
          lambda g: node("abs", [], [], [g.stream()]), pyclass="PAbs", inputs=(0,))
 register("int", lambda n, v, kids, extra: iso.PInt(kids[0]), lambda g: node("int", [], [], [g.stream()]), pyclass="PInt", inputs=(0,))
 register("concat", lambda n, v, kids, extra: iso.PConcatenate([k if isinstance(k, iso.Pattern) else iso.PConstant(k) for k in kids]),
-         lambda g: node("concat", [0], [], [g.stream(finite=True) for _ in range(g.rng.randint(1, 4))]), pyclass="PConcatenate")
+         lambda g: node("concat", [0], [], [(node("seq", [g.rng.choice([0, 1]), 0, 0], [], [lit(g.num())] * g.rng.choice([0, 0, 1]))
+                                             if g.rng.random() < 0.15 else g.stream(finite=True))
+                                            for _ in range(g.rng.randint(1, 5))]), pyclass="PConcatenate")
 
 
 def _arrayindex_build(n, v, kids, extra):
